@@ -234,6 +234,8 @@ impl StateRestorer {
                     }
                 }
                 EventPayload::WorkerLost(worker_id, reason) => {
+                    // The record of the worker connection may be already pruned
+                    self.max_worker_id = self.max_worker_id.max(worker_id.as_num());
                     if reason.is_failure() {
                         for job in self.jobs.values_mut() {
                             job.increase_crash_counters(worker_id);
@@ -275,6 +277,10 @@ impl StateRestorer {
                     rv_id,
                 } => {
                     log::debug!("Replaying: TaskStarted {task_id} {instance_id} {worker_ids:?}");
+                    // The record of the worker connection may be already pruned
+                    for worker_id in &worker_ids {
+                        self.max_worker_id = self.max_worker_id.max(worker_id.as_num());
+                    }
                     if let Some(job) = self.jobs.get_mut(&task_id.job_id()) {
                         job.tasks.insert(
                             task_id.job_task_id(),
